@@ -117,7 +117,7 @@ def keyed_rules(run, r_keyed, r_cross, ast, label):
             continue
         nm = v["name"]
         ok = bool(v["keys"]) or nm in EXEMPT_UNKEYED
-        run.instance(r_keyed, "%s static %s" % (label, nm[:180]), (v["file"], v["line"]), ok=ok, detail={"keys": v["keys"]})
+        run.instance(r_keyed, "%s static %s" % (label, nm), (v["file"], v["line"]), ok=ok, detail={"keys": v["keys"]})
         if not ok:
             run.violation(r_keyed, "unkeyed|%s" % nm[:200], "mutable variable with static storage %s (%s) is not keyed by any policy: every policy shares it" % (nm, v["type"][:80]), (v["file"], v["line"]))
     for f in ast.funcs:
@@ -133,7 +133,7 @@ def keyed_rules(run, r_keyed, r_cross, ast, label):
                     if any(re.search(a, f["name"]) and re.search(b, r["name"]) for a, b, _ in EXEMPT_CROSS):
                         continue
                     bad.append((kind, r))
-        run.instance(r_cross, "%s %s" % (label, f["name"][:160]), (f["file"], f["line"]), ok=not bad, detail={"keys": fk})
+        run.instance(r_cross, "%s %s" % (label, f["name"]), (f["file"], f["line"]), ok=not bad, detail={"keys": fk})
         for kind, r in bad:
             fq = re.sub(r"<.*", "", f["name"])
             run.violation(r_cross, "%s|%s" % (fq[:120], re.sub(r"<.*", "", r["name"])[:120]),
